@@ -46,12 +46,56 @@ func main() {
 	}
 	deadline := time.Now().Add(time.Duration(secs * float64(time.Second)))
 	logger := logging.Null
+	writerPhase()
 	iter := 0
 	for time.Now().Before(deadline) {
 		iter++
 		round(logger)
 	}
 	fmt.Printf("iterations=%d\n", iter)
+}
+
+// writerPhase: goroutines that give up or fail midway on pooled writers and release them with Free, next to
+// goroutines that build complete messages (about one second).
+func writerPhase() {
+	var wg sync.WaitGroup
+	stop := time.Now().Add(time.Second)
+	for g := 0; g < 8; g++ {
+		g := g
+		wg.Add(1)
+		go func() {
+			defer wg.Done()
+			for time.Now().Before(stop) {
+				for k := 0; k < 200; k++ {
+					switch g % 3 {
+					case 0:
+						m := spec.NewMessageWriter()
+						wr := m.Unwrap()
+						m.Field(1).Bool(true)
+						m.Field(2).Message() // abandoned open
+						wr.Free()
+					case 1:
+						m := spec.NewMessageWriter()
+						wr := m.Unwrap()
+						m.Field(1).Bool(true)
+						wr.Value().Bool(true)
+						wr.Value().Bool(false) // error
+						wr.Free()
+					default:
+						m := spec.NewMessageWriter()
+						m.Field(1).Int32(int32(k))
+						m.Field(2).String("x")
+						if b, err := m.Build(); err != nil {
+							fmt.Fprintf(os.Stderr, "RACECHECK-MISMATCH writer build %v\n", err)
+						} else if mm, _, err := spec.ParseMessage(b); err != nil || mm.Int32(1) != int32(k) {
+							fmt.Fprintf(os.Stderr, "RACECHECK-MISMATCH writer result %v\n", err)
+						}
+					}
+				}
+			}
+		}()
+	}
+	wg.Wait()
 }
 
 func round(logger logging.Logger) {
@@ -116,6 +160,20 @@ func round(logger logging.Logger) {
 					res.Release()
 				}
 				// writers in parallel (pooled + explicit)
+				// programs that give up or fail midway on a pooled writer and release it with Free
+				for k := 0; k < 20; k++ {
+					m1 := spec.NewMessageWriter()
+					wr1 := m1.Unwrap()
+					m1.Field(1).Bool(true)
+					m1.Field(2).Message() // abandoned open
+					wr1.Free()
+					m2 := spec.NewMessageWriter()
+					wr2 := m2.Unwrap()
+					m2.Field(1).Bool(true)
+					wr2.Value().Bool(true)
+					wr2.Value().Bool(false) // second value without consuming the first: error
+					wr2.Free()
+				}
 				w := spec.NewMessageWriter()
 				w.Field(1).String(msg)
 				w.Field(2).Int32(int32(i))
